@@ -336,6 +336,16 @@ def build_val(t):
     raise ValueError(t)
 
 
+def build_val_for_case(c, t=None):
+    """the value object of a checker case (or of an alternative term t of it): with x['alias'] structurally identical mutable
+    containers inside the value are ONE shared object"""
+    _SHARE[0] = {} if c['x'].get('alias') else None
+    try:
+        return build_val(c['c']['val'] if t is None else t)
+    finally:
+        _SHARE[0] = None
+
+
 def reflect_val(o, t=None):
     """value object -> term (iteration order of the real object); one-shot iterators keep the generator's term"""
     if o is None or isinstance(o, (bool, int, float, str, bytes)) and type(o) in (bool, int, float, str, bytes):
@@ -641,11 +651,7 @@ def run_impl_checker(cases):
     for c in cases:
         try:
             ao = build_ann(c['c']['ann'])
-            _SHARE[0] = {} if c['x'].get('alias') else None
-            try:
-                vo = build_val(c['c']['val'])
-            finally:
-                _SHARE[0] = None
+            vo = build_val_for_case(c)
         except Exception as e:      # a corpus case that cannot be concretised any more
             out.append({'out': 'unbuildable:' + type(e).__name__})
             continue
